@@ -12,6 +12,19 @@ BB_PYROOT (a scratch copy; never /repo itself).
   id|pymkrule|<c1>|<c2>|<c3>|<c4> tm.rules.make_rule
   id|pycapps|<tape>|<rule>        tm.rules.count_apps
   id|pyapply|<tape>|<rule>        tm.rules.apply_rule
+component commands (pieces that whole runs rarely reach):
+  id|pysigc|<tapeA>|<tapeB>       A.sig_compatible(B.signature)
+  id|pyenum|<tape>|<ops>          tm.tape.EnumTape (tape.to_enum()) driven through ops joined by ';':
+                                   S<shift>,<colour>,<skip>  EnumTape.step
+                                   A<rule>                   tm.rules.apply_rule(rule, enum_tape)
+                                   G<index>                  EnumTape.get_count(index)
+                                   one record per op: result offsets edges tape; an
+                                   exception ends the stream with raise:<Name>
+  id|pygetrule|<rules>|<state>|<tape>               Prover.get_rule(state, tape)
+  id|pyminsig|<prog>|<rules>|<state>|<tape>|<steps> Prover.get_min_sig(steps, state, tape.to_enum(),
+                                                     tape.signature)
+                                   <rules>: <state>,<colour>=<sig>~<lex><rex>~<rule>;... joined by
+                                   spaces, loaded with Prover.set_rule in this order
 """
 import os
 import resource
@@ -206,6 +219,89 @@ def cmd_pyapply(tape_f, rule_f):
     return ('none' if res is None else f'some:{res}') + '|' + field_of_tape(t)
 
 
+# ---------------------------------------------------------------- components
+
+def cmd_pysigc(ta, tb):
+    a, b = tape_of_field(ta), tape_of_field(tb)
+    try:
+        return b2s(a.sig_compatible(b.signature))
+    except Exception as ex:          # pylint: disable = broad-exception-caught
+        return raise_name(ex)
+
+
+def index_of_field(s):
+    return (1 if s[0] == 'R' else 0, int(s[1:]))
+
+
+def enum_record(res, et):
+    lo, ro = et.offsets
+    le, re_ = et.edges
+    return f'{res} {lo},{ro} {b2s(le)}{b2s(re_)} {field_of_tape(et.tape)}'
+
+
+def cmd_pyenum(tape_f, ops_f):
+    et = tape_of_field(tape_f).to_enum()
+    recs = []
+    for o in (ops_f.split(';') if ops_f else []):
+        kind, arg = o[0], o[1:]
+        try:
+            if kind == 'S':
+                sh, co, sk = arg.split(',')
+                et.step(sh == '1', int(co), sk == '1')
+                recs.append(enum_record('-', et))
+            elif kind == 'A':
+                res = tm_rules.apply_rule(rule_of_field(arg), et)
+                recs.append(enum_record('none' if res is None else f'some:{res}', et))
+            elif kind == 'G':
+                recs.append(enum_record(str(et.get_count(index_of_field(arg))), et))
+            else:
+                return 'PYHARNESS-ERROR:bad enum op'
+        except Exception as ex:      # pylint: disable = broad-exception-caught
+            recs.append(raise_name(ex))
+            break
+    return ';'.join(recs)
+
+
+def sigspan_of_field(s):
+    return tuple(((int(x[1:]),) if x[0] == 'J' else int(x[1:])) for x in s.split(',')) if s else ()
+
+
+def sig_of_field(s):
+    sc, l, r = s.split('/')
+    return (int(sc), sigspan_of_field(l), sigspan_of_field(r))
+
+
+def prover_of_field(comp, rules_f):
+    pv = tm_prover.Prover(comp)
+    for slot_f in (rules_f.split(' ') if rules_f else []):
+        key, ents = slot_f.split('=')
+        st = int(key.split(',')[0])
+        for e in ents.split(';'):
+            g, fl, r = e.split('~')
+            pv.set_rule(rule_of_field(r), st, (sig_of_field(g), (fl[0] == '1', fl[1] == '1')))
+    return pv
+
+
+def cmd_pygetrule(rules_f, st, tape_f):
+    t = tape_of_field(tape_f)
+    try:
+        r = prover_of_field({}, rules_f).get_rule(int(st), t)
+    except Exception as ex:          # pylint: disable = broad-exception-caught
+        return raise_name(ex)
+    return 'none' if r is None else 'rule:' + field_of_rule(r)
+
+
+def cmd_pyminsig(prog, rules_f, st, tape_f, steps):
+    from tm.parse import tcompile      # pylint: disable = import-outside-toplevel
+    t = tape_of_field(tape_f)
+    try:
+        sig, (lex, rex) = prover_of_field(tcompile(prog), rules_f).get_min_sig(
+            int(steps), int(st), t.to_enum(), t.signature)
+    except Exception as ex:          # pylint: disable = broad-exception-caught
+        return raise_name(ex)
+    return f'{field_of_sig(sig)}~{b2s(lex)}{b2s(rex)}'
+
+
 # ---------------------------------------------------------------- whole runs
 
 class Watch:
@@ -354,6 +450,14 @@ def dispatch(f):
             return cmd_pycapps(tp, rl)
         case ['pyapply', tp, rl]:
             return cmd_pyapply(tp, rl)
+        case ['pysigc', ta, tb]:
+            return cmd_pysigc(ta, tb)
+        case ['pyenum', tp, ops]:
+            return cmd_pyenum(tp, ops)
+        case ['pygetrule', rl, st, tp]:
+            return cmd_pygetrule(rl, st, tp)
+        case ['pyminsig', prog, rl, st, tp, steps]:
+            return cmd_pyminsig(prog, rl, st, tp, steps)
     return 'PYHARNESS-ERROR:unknown command'
 
 
